@@ -24,7 +24,9 @@ import (
 
 	"github.com/wmnsk/go-pfcp/message"
 
+	"github.com/free5gc/go-upf/internal/forwarder/perio"
 	"github.com/free5gc/go-upf/internal/logger"
+	"github.com/free5gc/go-upf/internal/report"
 	"github.com/free5gc/go-upf/internal/zzverif/simk"
 )
 
@@ -232,7 +234,12 @@ func TestVerifStress(t *testing.T) {
 		if err := json.Unmarshal(sc.Bytes(), &s); err != nil {
 			t.Fatalf("INFRA: %v", err)
 		}
-		o := vfRunScenario(t, k, s)
+		var o vfScenOut
+		if s.Kind == "perioclose" {
+			o = vfPerioClose(s)
+		} else {
+			o = vfRunScenario(t, k, s)
+		}
 		_ = enc.Encode(o)
 		w.Flush()
 		if !o.Answered || !o.Stopped {
@@ -262,6 +269,9 @@ func vfRunScenario(t *testing.T, k int, s vfScen) vfScenOut {
 	}
 	if s.Kind == "retain" {
 		timeout = vfRetainW / 2 // maxRetrans 1: the retention window is two time-outs
+	}
+	if s.Kind == "txstall" {
+		timeout = 300 * time.Millisecond
 	}
 	st, err := vf2NewStack(k, 1, timeout)
 	if err != nil {
@@ -364,6 +374,15 @@ func vfRunScenario(t *testing.T, k int, s vfScen) vfScenOut {
 		probe()
 	case "retain":
 		vfRetain(en, &s, &o)
+		probe()
+	case "rxflood":
+		vfRxFlood(en, &s, &o)
+		probe()
+	case "txstall":
+		vfTxStall(en, &s, &o)
+		probe()
+	case "regflood":
+		vfRegFlood(en, &s, &o)
 		probe()
 	case "tickfail":
 		vfTickFail(en, &s, &o)
@@ -472,13 +491,250 @@ func vfRetain(en *vfStressEnv, s *vfScen, o *vfScenOut) {
 	_, okd := exchange(req(51, seq)) // duplicate of R2, well inside R2's window
 	late := time.Since(tR2)
 	c3 := vfCreates(en.st.k, &log, seid, 51)
-	o.Note = fmt.Sprintf("W=%v creates(R1)=%d creates(R2)=%d after-duplicate=%d duplicate-answered=%v %v after R2", W, c1, c2, c3, okd, late)
+	// an UNANSWERED request (establishment for a node that is not associated) occupies its sequence number for the window
+	// only: long after it, a Heartbeat Request with that number from the same socket is a new request and is answered
+	seq2 := seq + 1
+	en.send("p1", vfEvent{T: "est", Node: "n4", CP: "9", Peer: "p1", Seq: seq2})
+	time.Sleep(W * 15 / 10)
+	hbAnswered := false
+	{
+		e := vfEvent{T: "hb", Peer: "p1", Seq: seq2}
+		en.send("p1", e)
+		c := en.nw.conns["p1"]
+		buf := make([]byte, 65536)
+		for t := time.Now(); time.Since(t) < 2*time.Second; {
+			_ = c.SetReadDeadline(time.Now().Add(20 * time.Millisecond))
+			n, _, err := c.ReadFromUDP(buf)
+			if err == nil && n >= 8 && buf[1] == 2 && int(buf[4])<<16|int(buf[5])<<8|int(buf[6]) == seq2 {
+				hbAnswered = true
+				break
+			}
+		}
+		_ = c.SetReadDeadline(time.Time{})
+	}
+	o.Note = fmt.Sprintf("W=%v creates(R1)=%d creates(R2)=%d after-duplicate=%d duplicate-answered=%v %v after R2; heartbeat re-using the number of an unanswered request 1.5 W later answered=%v",
+		W, c1, c2, c3, okd, late, hbAnswered)
+	if !hbAnswered {
+		o.Bad = "C06:bookkeeping of an unanswered request kept after its retention window: a later request with that sequence number is ignored (real timers)"
+	}
 	if c1 > 1 {
 		o.Bad = "C06:a duplicate inside the retention window was executed again (real timers)"
 	}
 	if c2 == 1 && c3 > 1 && late < W*8/10 {
 		o.Bad = "C06:a duplicate inside the retention window of a later request with the same sequence number was executed again (real timers)"
 	}
+}
+
+// vfTxStall (C09 with the real retransmission timers): more report requests outstanding than the time-out queue holds, and the
+// event loop busy in one slow data-plane call while all their timers fire. Every request must still be retransmitted exactly
+// the configured number of times (1) - a time-out notification must not get lost because the loop was busy.
+func vfTxStall(en *vfStressEnv, s *vfScen, o *vfScenOut) {
+	st := en.st
+	if _, ok := en.call("p1", vfEvent{T: "est", Node: "n1", CP: "72", Ops: []vfOp{{Op: "create", Kind: "far", ID: 1, AA: 12, Teid: 5, Gnb: 1, Meth: -1, MInfo: -1},
+		{Op: "create", Kind: "pdr", ID: 1, Far: 1, Meth: -1, MInfo: -1}}}, 10*time.Second); !ok {
+		o.Note = "establishment not answered"
+		return
+	}
+	en.nw.drain()
+	n := s.N
+	if n == 0 {
+		n = 70
+	}
+	// the next Update FAR takes two seconds in the data plane
+	var slow int32
+	st.k.SetLocked(func() {
+		st.k.Latency = func(r *simk.Req) time.Duration {
+			if r.Op == "update" && r.Kind == "far" && atomic.CompareAndSwapInt32(&slow, 0, 1) {
+				return 2 * time.Second
+			}
+			return 0
+		}
+	})
+	for j := 0; j < n; j++ {
+		_ = st.k.EmitBuffer(1, 1, 12, vf2Payload(j)) // BUFF|NOCP: one downlink data report each
+	}
+	time.Sleep(60 * time.Millisecond) // the n report requests are out, their timers (300 ms) running
+	en.send("p1", vfEvent{T: "mod", SEID: "1", Peer: "p1", Seq: en.nseq(), Ops: []vfOp{{Op: "update", Kind: "far", ID: 1, AA: 12, Meth: -1, MInfo: -1}}})
+	// count the copies of every report request for 5 s (nobody answers them)
+	copies := map[int]int{}
+	c := en.nw.conns["p1"]
+	buf := make([]byte, 65536)
+	for t := time.Now(); time.Since(t) < 5*time.Second; {
+		_ = c.SetReadDeadline(time.Now().Add(50 * time.Millisecond))
+		k, _, err := c.ReadFromUDP(buf)
+		if err == nil && k >= 16 && buf[1] == 56 {
+			copies[int(buf[12])<<16|int(buf[13])<<8|int(buf[14])]++
+		}
+	}
+	_ = c.SetReadDeadline(time.Time{})
+	st.k.SetLocked(func() { st.k.Latency = nil })
+	once, twice, more := 0, 0, 0
+	for _, v := range copies {
+		switch {
+		case v == 1:
+			once++
+		case v == 2:
+			twice++
+		default:
+			more++
+		}
+	}
+	o.Note = fmt.Sprintf("%d report requests seen: %d sent twice (original + 1 retransmission), %d only once, %d more often; slow call taken: %v", len(copies), twice, once, more, slow == 1)
+	if slow == 1 && len(copies) >= n && once > 0 {
+		o.Bad = "C09:report requests were not retransmitted on their timer expiry: time-out notifications got lost while the event loop was busy (real timers)"
+	}
+	if more > 0 {
+		o.Bad = "C09:a report request was retransmitted more often than configured (real timers)"
+	}
+}
+
+// vfRegFlood (C03 / C15): hundreds of periodic URRs are created while the periodic server is busy with a slow query, more than
+// its event queue holds. Each of them must be registered all the same: the next tick of their period queries every one.
+func vfRegFlood(en *vfStressEnv, s *vfScen, o *vfScenOut) {
+	st := en.st
+	if _, ok := en.call("p1", vfEvent{T: "est", Node: "n1", CP: "73", Ops: vfPerioOps(1, 10)}, 10*time.Second); !ok {
+		o.Note = "establishment not answered"
+		return
+	}
+	st.psSync(10 * time.Second)
+	st.k.TakeLog()
+	var slow int32
+	st.k.SetLocked(func() {
+		st.k.Latency = func(r *simk.Req) time.Duration {
+			if r.Op == "mquery" && atomic.CompareAndSwapInt32(&slow, 0, 1) {
+				return 1200 * time.Millisecond
+			}
+			return 0
+		}
+	})
+	st.ps.VerifTick(10 * time.Second) // the server goes into the slow query
+	time.Sleep(30 * time.Millisecond)
+	nsess, per := 7, 100
+	for i := 0; i < nsess; i++ {
+		if _, ok := en.call("p1", vfEvent{T: "est", Node: "n1", CP: strconv.Itoa(2000 + i), Ops: vfPerioOps(per, 20)}, 15*time.Second); !ok {
+			o.Note = fmt.Sprintf("establishment %d not answered", i)
+			return
+		}
+	}
+	st.k.SetLocked(func() { st.k.Latency = nil })
+	if !st.psSync(20 * time.Second) {
+		o.Note = "periodic server did not drain"
+		return
+	}
+	st.k.TakeLog()
+	st.ps.VerifTick(20 * time.Second)
+	st.psSync(20 * time.Second)
+	oids := map[[2]uint64]bool{}
+	for _, r := range st.k.TakeLog() {
+		if r.Op == "mquery" {
+			for _, x := range r.OIDs {
+				oids[x] = true
+			}
+		}
+	}
+	o.Note = fmt.Sprintf("%d periodic URRs created while the periodic server was in a slow query (taken: %v); %d of them queried on the next tick of their period", nsess*per, slow == 1, len(oids))
+	if slow == 1 && len(oids) < nsess*per {
+		o.Bad = "C15:URRs with the periodic trigger were created but are not queried on the tick of their period (registration lost while the periodic server was busy)"
+	}
+}
+
+// vfRxFlood (C06): thousands of answered requests inside one retention window (an hour here), then a copy of an early one:
+// it must still be recognised as a retransmission, however many transactions are being retained
+func vfRxFlood(en *vfStressEnv, s *vfScen, o *vfScenOut) {
+	m, ok := en.call("p1", vfEvent{T: "est", Node: "n1", CP: "70", Ops: []vfOp{{Op: "create", Kind: "far", ID: 1, Meth: -1, MInfo: -1}}}, 10*time.Second)
+	if !ok {
+		o.Note = "establishment not answered"
+		return
+	}
+	var seid uint64
+	if r, ok := m.(*message.SessionEstablishmentResponse); ok && r.UPFSEID != nil {
+		if f, err := r.UPFSEID.FSEID(); err == nil {
+			seid = f.SEID
+		}
+	}
+	var log []simk.Req
+	first := vfEvent{T: "mod", SEID: strconv.FormatUint(seid, 10), Ops: []vfOp{{Op: "create", Kind: "far", ID: 60, Meth: -1, MInfo: -1}}}
+	if _, ok := en.call("p1", first, 10*time.Second); !ok {
+		o.Note = "modification not answered"
+		return
+	}
+	seqFirst := int(atomic.LoadInt32(&en.seq))
+	en.call("p1", vfEvent{T: "mod", SEID: strconv.FormatUint(seid, 10), Ops: []vfOp{{Op: "remove", Kind: "far", ID: 60, Meth: -1, MInfo: -1}}}, 10*time.Second)
+	n := s.N
+	if n == 0 {
+		n = 5000
+	}
+	c := en.nw.conns["p2"]
+	buf := make([]byte, 65536)
+	got := 0
+	for i := 0; i < n; i++ {
+		en.send("p2", vfEvent{T: "hb", Peer: "p2", Seq: en.nseq()})
+		if i%64 == 63 { // keep the socket buffers short
+			for {
+				_ = c.SetReadDeadline(time.Now().Add(2 * time.Millisecond))
+				if _, _, err := c.ReadFromUDP(buf); err != nil {
+					break
+				}
+				got++
+			}
+		}
+	}
+	_ = c.SetReadDeadline(time.Time{})
+	c1 := vfCreates(en.st.k, &log, seid, 60)
+	// the early request again, byte for byte
+	first.Seq, first.Peer = seqFirst, "p1"
+	en.send("p1", first)
+	en.call("p1", vfEvent{T: "hb"}, 5*time.Second) // barrier: the copy has been dealt with
+	c2 := vfCreates(en.st.k, &log, seid, 60)
+	o.Note = fmt.Sprintf("%d heartbeats (%d answers read) between a request and its copy; creates of FAR 60: %d before, %d after the copy", n, got, c1, c2)
+	if c1 == 1 && c2 > 1 {
+		o.Bad = "C06:a retransmitted request was executed again because many other requests had been received in between"
+	}
+}
+
+type vfNopHandler struct{}
+
+func (vfNopHandler) NotifySessReport(report.SessReport)      {}
+func (vfNopHandler) PopBufPkt(uint64, uint16) ([]byte, bool) { return nil, false }
+
+// vfPerioClose (C17): the periodic server is closed while its (very short) periods are ticking, again and again: closing it
+// must release the timers without a fault. A fault here is a panic in a goroutine nobody recovers: the process dies.
+func vfPerioClose(s vfScen) vfScenOut {
+	o := vfScenOut{vfScen: s, Answered: true, Stopped: true, OrderOk: true}
+	t0 := time.Now()
+	rounds := s.N
+	if rounds == 0 {
+		rounds = 300
+	}
+	h := vfNopHandler{}
+	for i := 0; i < rounds; i++ {
+		var wg sync.WaitGroup
+		ps, err := perio.OpenServer(&wg)
+		if err != nil {
+			o.Fatal = err.Error()
+			break
+		}
+		ps.Handle(h, func(m map[uint64][]uint32) (map[uint64][]report.USAReport, error) { return nil, nil })
+		ps.AddPeriodReportTimer(1, 1, 20*time.Microsecond)
+		ps.AddPeriodReportTimer(2, 1, 30*time.Microsecond)
+		time.Sleep(time.Duration(50+i%200) * time.Microsecond)
+		ps.Close()
+		done := make(chan struct{})
+		go func() { wg.Wait(); close(done) }()
+		select {
+		case <-done:
+		case <-time.After(5 * time.Second):
+			o.Stopped = false
+			o.Fatal = fmt.Sprintf("round %d: goroutines of the periodic server still running 5 s after Close", i)
+			_, o.Dump = vfBlockedSig(vfDump())
+		}
+		if !o.Stopped {
+			break
+		}
+	}
+	o.Note = fmt.Sprintf("%d open / tick / close rounds with periods of 20 and 30 microseconds", rounds)
+	o.WallMs = int(time.Since(t0) / time.Millisecond)
+	return o
 }
 
 // vfTickFail (C15 / C18 with the real period tickers): a periodic URR with a period of one second; one multi-report query
